@@ -309,6 +309,40 @@ Proof.
   assert (Z * beta * exp (- G / (kB * T)) <= Z * beta) by nra.
   assert (0 <= Z * beta * exp (- G / (kB * T))) by nra. nra.
 Qed.
+(* the transient rate from time 0 on *)
+Lemma incubation_factor_ext_bounds tau t : 0 <= incubation_factor_ext tau t <= 1.
+Proof. unfold incubation_factor_ext. destruct (Req_EM_T t 0); [lra|apply incubation_factor_bounds]. Qed.
+Lemma incubation_factor_ext_monotone tau t1 t2 : 0 <= tau -> 0 <= t1 -> t1 <= t2 ->
+  incubation_factor_ext tau t1 <= incubation_factor_ext tau t2.
+Proof.
+  intros Htau H1 H12. unfold incubation_factor_ext.
+  destruct (Req_EM_T t1 0) as [E1|E1]; destruct (Req_EM_T t2 0) as [E2|E2]; try lra.
+  - apply incubation_factor_bounds.
+  - apply incubation_factor_monotone; lra.
+Qed.
+Lemma nucleationRate_ext_pos_time Z beta G T tau t : t <> 0 -> nucleationRate_ext Z beta G T tau t = nucleationRate Z beta G T tau t.
+Proof. intros H. unfold nucleationRate_ext, nucleationRate, incubation_factor_ext. destruct (Req_EM_T t 0); [contradiction|reflexivity]. Qed.
+Lemma nucleationRate_ext_time_zero Z beta G T tau : nucleationRate_ext Z beta G T tau 0 = 0.
+Proof.
+  unfold nucleationRate_ext, incubation_factor_ext. destruct (Req_EM_T G 0); [reflexivity|].
+  destruct (Req_EM_T 0 0); [ring|contradiction].
+Qed.
+Lemma nucleationRate_ext_zero_barrier Z beta T tau t : nucleationRate_ext Z beta 0 T tau t = 0.
+Proof. unfold nucleationRate_ext. destruct (Req_EM_T 0 0); [reflexivity|contradiction]. Qed.
+Lemma nucleationRate_ext_nonneg Z beta G T tau t : 0 <= Z -> 0 <= beta -> 0 <= nucleationRate_ext Z beta G T tau t.
+Proof.
+  intros HZ Hb. unfold nucleationRate_ext. destruct (Req_EM_T G 0); [lra|].
+  pose proof (incubation_factor_ext_bounds tau t). pose proof (exp_pos (- G / (kB * T))).
+  apply Rmult_le_pos; [apply Rmult_le_pos; [apply Rmult_le_pos|]|]; lra.
+Qed.
+Lemma nucleationRate_ext_monotone_in_time Z beta G T tau t1 t2 : 0 <= Z -> 0 <= beta -> 0 <= tau -> 0 <= t1 -> t1 <= t2 ->
+  nucleationRate_ext Z beta G T tau t1 <= nucleationRate_ext Z beta G T tau t2.
+Proof.
+  intros HZ Hb Htau H1 H12. unfold nucleationRate_ext. destruct (Req_EM_T G 0); [lra|].
+  pose proof (incubation_factor_ext_monotone tau t1 t2 Htau H1 H12). pose proof (exp_pos (- G / (kB * T))).
+  apply Rmult_le_compat_l; [apply Rmult_le_pos; [apply Rmult_le_pos|]; lra|assumption].
+Qed.
+
 Lemma nucleationRadius_ge T Rc gamma : Rc <= nucleationRadius T Rc gamma.
 Proof. unfold nucleationRadius. pose proof (sqrt_pos (kB * T / (PI * gamma))). lra. Qed.
 
